@@ -231,7 +231,7 @@ def snapshot_brackets(ctx, rule):
                     '%s.placement_expiry' % var in reads:
                 snaps.append((node, comp, var, reads))
     ctx.require(len(snaps) == 2, 'before/after snapshots in Cell.schedule '
-                                 '(found %d)' % len(snaps))
+                                 '(found %d)' % len(snaps), rule=rule)
     order = C.reach_after(snaps[0][0], edge_ok=C.no_exc)
     if snaps[1][0] not in order:
         snaps.reverse()
@@ -246,12 +246,12 @@ def snapshot_brackets(ctx, rule):
            construct='snapshot domains')
     names = placement_mutators(ctx.index)
     ctx.require('remove' in names and 'put' in names,
-                'placement mutators of the scheduler')
+                'placement mutators of the scheduler', rule=rule)
     changers = [n for n in graph.nodes for c in C.node_calls(n)
                 if isinstance(c.func, ast.Attribute) and
                 c.func.attr in names]
     ctx.require(len(changers) >= 3, 'placement-changing calls in '
-                                    'Cell.schedule')
+                                    'Cell.schedule', rule=rule)
     for node in changers:
         before_ok = K.guarded_by(graph, node, lambda e: e.src is bnode)
         after_ok = node not in C.reach_after(anode, edge_ok=C.no_exc)
